@@ -751,4 +751,62 @@ example : exCfgL.allowCommentIgnores = true ∧
       have : ¬ AnnotSuppressed exCfgL exImg2c exF' := hk.2.2
       exact this ((ignoreAnnotation_ok exCfgL exImg2c exF' true (by decide)).1 rfl))
 
+/-! ## buf.yaml sections (which `lint:` / `breaking:` section a module uses) -/
+
+/-- EVERY key of the schema counts for "is there a section": the `isEmpty` test of the reader
+    holds iff all twelve keys have their zero value (a section with exactly one key — e.g. only
+    `disallow_comment_ignores: true`, only `ignore_unstable_packages: true` — is a section). -/
+theorem yaml_section_empty_iff (s : YSection) : s.isEmpty = true ↔ s = {} := by
+  cases s
+  simp only [YSection.isEmpty, List.isEmpty_iff, Bool.and_eq_true, Bool.not_eq_true',
+    YSection.mk.injEq, and_assoc]
+
+/-- v2: a module-level section with at least one key REPLACES the workspace-level section as a
+    whole (none of the workspace-level keys survives), and its paths must lie in the module. -/
+theorem yaml_module_section_replaces_workspace (lint : Bool) (dir : Str) (ws mod : YSection)
+    (h : mod ≠ {}) : moduleEff lint true dir ws mod = sectionToEff lint true dir true mod := by
+  have he : mod.isEmpty = false := by
+    cases hb : mod.isEmpty
+    · rfl
+    · exact absurd ((yaml_section_empty_iff mod).1 hb) h
+  simp [moduleEff, pickSection, he]
+
+/-- v2: a module without a section of its own (absent, `{}`, only zero values) uses the
+    workspace-level section; paths outside the module are skipped instead of rejected. -/
+theorem yaml_empty_module_section_falls_back (lint : Bool) (dir : Str) (ws : YSection) :
+    moduleEff lint true dir ws {} = sectionToEff lint true dir false ws := by
+  simp [moduleEff, pickSection, YSection.isEmpty]
+
+/-- The comment-ignore switch of the effective configuration is the one of the section that
+    applies: `allow_comment_ignores` (v1beta1 / v1), the negation of `disallow_comment_ignores`
+    (v2, where comment ignores are on by default); never on for breaking. -/
+theorem yaml_comment_flag_applies (lint v2 : Bool) (dir : Str) (req : Bool) (s : YSection) (eff : EffConfig)
+    (h : sectionToEff lint v2 dir req s = .ok eff) :
+    eff.allowCommentIgnores = (lint && (if v2 then !s.commentFlag else s.commentFlag)) ∧
+    eff.ignoreUnstablePackages = (!lint && s.ignoreUnstablePackages) := by
+  unfold sectionToEff at h
+  dsimp only at h
+  split at h
+  · cases h
+  · cases h; exact ⟨rfl, rfl⟩
+  · split at h
+    · split at h
+      · cases h
+      · cases h; exact ⟨rfl, rfl⟩
+    · cases h
+
+/-- The regression of seed C06-m4 as a statement about the model: a v2 module whose `lint:`
+    section contains ONLY `disallow_comment_ignores: true` has comment ignores off, whatever the
+    workspace-level section says. -/
+theorem yaml_only_disallow_comment_ignores (dir : Str) (ws : YSection) (eff : EffConfig)
+    (h : moduleEff true true dir ws { commentFlag := true } = .ok eff) : eff.allowCommentIgnores = false := by
+  rw [yaml_module_section_replaces_workspace true dir ws _ (by decide)] at h
+  simpa using (yaml_comment_flag_applies true true dir true _ eff h).1
+
+example : moduleEff true true dot { serviceSuffix := "API".toList } { commentFlag := true } =
+    .ok { disabled := false, check := ⟨[], [], [], [], false⟩, allowCommentIgnores := false,
+          ignoreUnstablePackages := false, enumZeroValueSuffix := [], rpcAllowSameRequestResponse := false,
+          rpcAllowGoogleProtobufEmptyRequests := false, rpcAllowGoogleProtobufEmptyResponses := false,
+          serviceSuffix := [] } := by decide
+
 end BufProofs.C06
